@@ -476,6 +476,15 @@ def runBlocks (fb : FB) : Nat → State → Option State
     let s ← sieveBlock fb s
     nextBlock s
 
+/-- the loop of the classical quadratic sieve: for every root table of `rs` (the roots shifted by one more
+interval), a full interval of `nblocks` rounds and then `rehash` with that table. -/
+def rehashRounds (fb : FB) (nblocks : Nat) : List (Array Nat × Array Nat) → State → Option State
+  | [], s => some s
+  | r :: rest, s => do
+    let s ← runBlocks fb nblocks s
+    let s ← rehash fb s r.1 r.2
+    rehashRounds fb nblocks rest s
+
 /-! ### smooths: "Now find factors" -/
 
 /-- the closure `is_factor(offset, pidx)` -/
